@@ -3,8 +3,8 @@ CONSTANT WriterSets <- W12
 CONSTANT InitLens = {1}
 CONSTANT InitTombs = {FALSE}
 CONSTANT Modes = {FALSE, TRUE}
-CONSTANT AheadSets <- NoAhead
-CONSTANT Kinds = {"put", "push", "del"}
+CONSTANT AheadSets <- Ahead1
+CONSTANT Kinds = {"put"}
 SPECIFICATION Spec
 INVARIANT BehaviourExport
 CHECK_DEADLOCK FALSE
